@@ -32,6 +32,47 @@ def classify(data):
     return cls
 
 
+_TRAIL_WS = None
+
+
+def prev_code_byte(b, o):
+    """The last byte before offset o that is neither layout nor inside a comment (None when that cannot be told). A `//` inside a
+    string literal is taken for a comment opener, which only makes the answer more lenient."""
+    import re
+    global _TRAIL_WS
+    if _TRAIL_WS is None:
+        _TRAIL_WS = re.compile(rb"(?:[ \t\r\n\x0b\x0c]|\xc2\x85|\xe2\x80[\x8e\x8f\xa8\xa9])+\Z")
+    i = o
+    for _ in range(200):
+        m = _TRAIL_WS.search(b, max(0, i - 4096), i)
+        j = m.start() if m else i
+        if j <= 0:
+            return None
+        if b[j - 2:j] == b"*/":
+            k = b.rfind(b"/*", 0, j - 2)
+            if k < 0:
+                return None
+            i = k
+            continue
+        ls = b.rfind(b"\n", 0, j) + 1
+        c = b.find(b"//", ls, j)
+        cut = None
+        while c >= 0:
+            # a `//` after an even number of unescaped double quotes on its line is a comment opener; inside a literal it is text
+            seg = b[ls:c].replace(b"\\\\", b"").replace(b"\\\"", b"").replace(b"'\"'", b"")
+            if seg.count(b'"') % 2 == 0:
+                cut = c
+                break
+            c = b.find(b"//", c + 2, j)
+        if cut is not None:
+            i = cut
+            continue
+        if b[ls:j].replace(b"\\\\", b"").replace(b"\\\"", b"").replace(b"'\"'", b"").count(b'"') % 2 == 1 and b.find(b"//", ls, j) >= 0:
+            return None         # cannot tell (a literal spanning lines): no verdict
+        return b[j - 1:j]
+    return None
+
+
 def shape_of(before, after):
     """signature shape of the first difference region."""
     n = min(len(before), len(after))
@@ -76,6 +117,19 @@ def judge_files(files_before, out, truth=None, structured=False):
             continue
         assert strip_tokens(after, toks) == before
         c["tokens"] += len(toks)
+        # where a token may go: `[ref: N] ` at the first character of a message literal, `ref = N` among the macro arguments
+        # (right after the opening bracket or after the separator that follows a target) - never in the middle of other text
+        for t in toks:
+            o = t["off"]
+            if t["style"] == "msg":
+                if before[o - 1:o] != b'"':
+                    v.append(("token-not-at-the-start-of-a-literal", rel, {"context": before[max(0, o - 30):o + 30], "token": t["tok"]}))
+                    break
+            else:
+                pc = prev_code_byte(before, o)
+                if pc is not None and pc not in (b"(", b","):
+                    v.append(("token-not-at-the-start-of-the-argument-list", rel, {"context": before[max(0, o - 30):o + 30], "token": t["tok"], "previous_code_byte": pc}))
+                    break
         classes |= cl
         if len(toks) >= 1000:
             classes.add("ge1000_insertions")
